@@ -63,11 +63,14 @@ type Case struct {
 	Configured []string `json:"configured"` // Settings.HostIPAddresses
 	// Singular: a single configured address is given through the older field
 	// Settings.HostIPAddress instead of the list.
-	Singular bool   `json:"singular,omitempty"`
-	Endpoint string `json:"endpoint"` // local address of the transport
-	HbH      uint32 `json:"hbh"`
-	E2E      uint32 `json:"e2e"`
-	Together bool   `json:"together"` // the application request follows the CER in the same segment
+	Singular bool `json:"singular,omitempty"`
+	// EmptyList (nothing configured): Settings.HostIPAddresses is an empty, non-nil list - what
+	// filtering a configuration leaves behind - instead of nil. It configures no address either.
+	EmptyList bool   `json:"empty_list,omitempty"`
+	Endpoint  string `json:"endpoint"` // local address of the transport
+	HbH       uint32 `json:"hbh"`
+	E2E       uint32 `json:"e2e"`
+	Together  bool   `json:"together"` // the application request follows the CER in the same segment
 }
 
 const (
@@ -364,6 +367,9 @@ func run(c Case, deferV6 bool) *ev.Failure {
 	if c.Singular && len(st.HostIPAddresses) == 1 {
 		st.HostIPAddress, st.HostIPAddresses = st.HostIPAddresses[0], nil
 	}
+	if c.EmptyList && len(c.Configured) == 0 {
+		st.HostIPAddresses = []datatype.Address{}
+	}
 	machine := sm.New(st)
 
 	stop := make(chan struct{})
@@ -627,6 +633,7 @@ func secondary(c *Case, i uint64) {
 	c.Endpoint = endpointsAll[pick(len(endpointsAll))]
 	c.Configured = configs[pick(len(configs))]
 	c.Singular = len(c.Configured) == 1 && pick(2) == 0
+	c.EmptyList = len(c.Configured) == 0 && pick(2) == 0
 	c.HbH = idPool[pick(len(idPool))]
 	c.E2E = idPool[pick(len(idPool))]
 	c.Ident = pick(len(idents))
@@ -738,6 +745,7 @@ func genCase(t *rapid.T) Case {
 	c.Ident = rapid.IntRange(0, len(idents)-1).Draw(t, "ident")
 	c.Configured = configs[rapid.IntRange(0, len(configs)-1).Draw(t, "configured")]
 	c.Singular = len(c.Configured) == 1 && rapid.Bool().Draw(t, "singular")
+	c.EmptyList = len(c.Configured) == 0 && rapid.Bool().Draw(t, "empty-list")
 	c.Endpoint = rapid.SampledFrom(endpointsAll).Draw(t, "endpoint")
 	c.HbH = rapid.OneOf(rapid.SampledFrom(idPool), rapid.Uint32()).Draw(t, "hbh")
 	c.E2E = rapid.OneOf(rapid.SampledFrom(idPool), rapid.Uint32()).Draw(t, "e2e")
@@ -818,8 +826,14 @@ func classify(c Case) (bool, []string) {
 		}
 	case v6:
 		cl = append(cl, "endpoint-v6-unconfigured")
+		if c.EmptyList {
+			cl = append(cl, "configured-list-empty-not-nil")
+		}
 	default:
 		cl = append(cl, "endpoint-v4-unconfigured")
+		if c.EmptyList {
+			cl = append(cl, "configured-list-empty-not-nil")
+		}
 	}
 	if strings.Contains(c.Endpoint, "127.0.0.1") || strings.Contains(c.Endpoint, "::1]") {
 		cl = append(cl, "endpoint-loopback")
